@@ -26,9 +26,30 @@ def run_case(run, drv, case_seed, tier):
         sdirs, placed = rb.scatter(rng, box, torrents, decoys="safe")
         dest = os.path.join(box, "dest")
         os.makedirs(dest)
+        flavour = rng.choice(["plain", "plain", "symlink", "below-symlink", "interrupted"])
+        case["dest"] = flavour
+        if flavour == "symlink":
+            os.symlink(dest, os.path.join(box, "dest-link"))
+            dest = os.path.join(box, "dest-link")
+        elif flavour == "below-symlink":
+            os.makedirs(os.path.join(box, "real", "sub"))
+            os.symlink(os.path.join(box, "real"), os.path.join(box, "lnk"))
+            dest = os.path.join(box, "lnk", "sub")
+        elif flavour == "interrupted":
+            # an earlier, interrupted rebuild left truncated copies behind
+            for t in torrents:
+                for p, blob in rb.torrent_files(t):
+                    data = blob.bytes()
+                    if len(data) > 1 and rng.random() < 0.5:
+                        path = os.path.join(dest, t["name"]) if t["single"] else \
+                            os.path.join(dest, t["name"], *p.split("/"))
+                        os.makedirs(os.path.dirname(path), exist_ok=True)
+                        with open(path, "wb") as fd:
+                            fd.write(data[:rng.choice([1, len(data) // 2, len(data) - 1])])
         how = rng.choice(["list", "dir"])
-        if how == "dir":
-            count = impl.rebuild([os.path.join(box, "metas")], sdirs, dest)
+        if how == "dir" or "symlink" in flavour:     # symbolic links are outside the Lean FS model
+            count = impl.rebuild([os.path.join(box, "metas")] if how == "dir" else
+                                 [m for m, _ in metas], sdirs, dest)
         else:
             count, raised = rb.rebuild_with_model(box, [m for m, _ in metas], sdirs, dest, drv, case)
             if raised:
